@@ -104,7 +104,7 @@ static void segv_handler(int sig, siginfo_t *si, void *ucv)
 }
 /* ---- single-step monitor (EFLAGS.TF): emulates XGETBV for the XCR0 models and watches for VEX/EVEX-encoded
  * instructions executed by the library while the emulated CPU/OS cannot execute them ---- */
-extern char __executable_start[], etext[];
+extern char __executable_start[], etext[], _end[];
 static volatile int g_step_xcr0_emulate, g_step_forbid_vex;
 static volatile uint32_t g_step_xcr0;
 static volatile uint64_t g_steps, g_xgetbv_events, g_vex_count, g_vex_first;
@@ -245,6 +245,10 @@ static void one_case(uint64_t idx)
             }
         }
         if (!ret) bad = "init-failed";
+        if (ret && h.vtable && !((const char *)h.vtable >= __executable_start && (const char *)h.vtable < _end)) {
+            /* the handle's table pointer is not an object of this executable: init left garbage in it */
+            bad = "handle-vtable-is-not-a-library-table-after-init"; be = -1;
+        } else
         be = ret ? (INITS[fi].par ? c->par_backend(&h) : c->ctr_backend(&h)) : -1;
         if (!bad && be < 0) { disarm(); printf("{\"type\":\"inconclusive\",\"reason\":\"cannot identify the selected back end from the handle\"}\n"); fflush(stdout); _exit(3); }
         if (!bad && be != exp_be) bad = be > exp_be ? "selected-back-end-above-what-cpu-and-os-support" : "selected-back-end-narrower-than-available";
@@ -271,7 +275,7 @@ static void one_case(uint64_t idx)
             if (g_vex_count) bad = "library-executed-AVX-encoded-instructions-on-a-cpu-or-os-without-AVX";
         }
         if (stepped && g_vex_count && !bad) bad = "library-executed-AVX-encoded-instructions-on-a-cpu-or-os-without-AVX";
-        if (ret) { if (INITS[fi].par) c->par_cleanup(&h); else c->ctr_cleanup(&h); }
+        if (ret && !(bad && !strcmp(bad, "handle-vtable-is-not-a-library-table-after-init"))) { if (INITS[fi].par) c->par_cleanup(&h); else c->ctr_cleanup(&h); }
         { char cn[96]; snprintf(cn, sizeof(cn), "selected_%s_%s", be >= 0 ? vh_backend_names[be] : "none", mname[model]); *vh_counter_ref(cn) += 1; }
         if (vh_distinct(vh_hash(g, sizeof(g), VH_HASH_INIT + (uint64_t)fi * 64 + (uint64_t)model * 8 + (uint64_t)trapped))) VH_COUNT("distinct_calling_contexts", 1);
         if (bad || (vh_want_sample() && rep == 3)) {
